@@ -176,7 +176,8 @@ func (wf *WriteFamily) method(t *types.Named, name string) *ssa.Function {
 }
 
 // expected header / body views for a response written through receiver r.
-func (wf *WriteFamily) expected(e *FuncEnc, sh writeShape, r string, rt types.Type, code string, oldTrace string, emittedOrder []string) (head, body string, full bool) {
+func (wf *WriteFamily) expected(e *FuncEnc, sh writeShape, r string, rt types.Type, code string, oldTrace string, emittedOrder []string) (head, body string, full bool, bodyGuard string) {
+	bodyGuard = "true"
 	e.needProjections()
 	head = sx("respHead", oldTrace)
 	full = true
@@ -188,7 +189,7 @@ func (wf *WriteFamily) expected(e *FuncEnc, sh writeShape, r string, rt types.Ty
 	hi, ht, okH := structFieldByName(rt, "Headers")
 	for _, h := range hdrs {
 		if !okH {
-			return head, "", false
+			return head, "", false, bodyGuard
 		}
 		hv := sx(e.D.FieldSelector(rt, hi), r)
 		fi := -1
@@ -199,7 +200,7 @@ func (wf *WriteFamily) expected(e *FuncEnc, sh writeShape, r string, rt types.Ty
 			}
 		}
 		if fi < 0 {
-			return head, "", false
+			return head, "", false, bodyGuard
 		}
 		fv := sx(e.D.FieldSelector(ht, fi), hv)
 		ftT := hst.Field(fi).Type()
@@ -235,10 +236,19 @@ func (wf *WriteFamily) expected(e *FuncEnc, sh writeShape, r string, rt types.Ty
 	if sh.R.ContentType != "" {
 		bi, bt, ok := structFieldByName(rt, "Body")
 		if !ok {
-			return head, "", full
+			return head, "", full, bodyGuard
 		}
 		bv := sx(e.D.FieldSelector(rt, bi), r)
 		if sh.R.IsJSON {
+			if _, isSl := bt.(*types.Slice); isSl {
+				// an array body declared in place: a nil slice is written as [], not
+				// as null (the schema is not nullable): what is handed to the encoder
+				// is the slice itself when it is non-nil, an empty non-nil one otherwise
+				// (that it is never handed over as nil is the call-site obligation
+				// call:writeJSON/requires:array-body-not-nil; for a nil field the value
+				// written is the fresh empty slice, which this clause does not name)
+				bodyGuard = not(eq(sx("sl_base", bv), "0"))
+			}
 			body = sx("body_json", body, ifaceOf(e, bv, bt))
 		} else {
 			if _, isI := bt.Underlying().(*types.Interface); isI {
@@ -248,7 +258,7 @@ func (wf *WriteFamily) expected(e *FuncEnc, sh writeShape, r string, rt types.Ty
 			}
 		}
 	}
-	return head, body, full
+	return head, body, full, bodyGuard
 }
 
 func indexFold(xs []string, s string) int {
@@ -458,7 +468,7 @@ func (wf *WriteFamily) verifyPair(cr *CheckRun, job *EmittedJob, t *types.Named,
 			if !ok {
 				return []NamedFormula{{Name: "ensures#shape", Props: []string{"C02"}, Formula: "false"}}
 			}
-			head, body, full := wf.expected(e, sh, r, rt, code, e.entry.trace, order)
+			head, body, full, bodyGuard := wf.expected(e, sh, r, rt, code, e.entry.trace, order)
 			out := []NamedFormula{}
 			if full {
 				out = append(out, NamedFormula{Name: "ensures#head", Props: []string{"C02", "C10"}, Formula: eq(sx("respHead", e.cur.trace), head)})
@@ -472,7 +482,7 @@ func (wf *WriteFamily) verifyPair(cr *CheckRun, job *EmittedJob, t *types.Named,
 				out = append(out, NamedFormula{Name: "ensures#core", Props: []string{"C02"}, Formula: eq(sx("respCore", e.cur.trace), core)})
 			}
 			if body != "" {
-				out = append(out, NamedFormula{Name: "ensures#body", Props: []string{"C02", "C10"}, Formula: eq(sx("respBody", e.cur.trace), body)})
+				out = append(out, NamedFormula{Name: "ensures#body", Props: []string{"C02", "C10"}, Formula: implies(bodyGuard, eq(sx("respBody", e.cur.trace), body))})
 			} else {
 				out = append(out, NamedFormula{Name: "ensures#body", Props: []string{"C02"}, Formula: "false"})
 			}
@@ -494,7 +504,7 @@ func (wf *WriteFamily) verifyPair(cr *CheckRun, job *EmittedJob, t *types.Named,
 				if !ok {
 					return nil
 				}
-				head, body, full := wf.expected(e, sh, r, rt, code, pre.trace, order)
+				head, body, full, bodyGuard := wf.expected(e, sh, r, rt, code, pre.trace, order)
 				e.D.UF("nResp", []string{"Trace"}, "Int")
 				out := []NamedFormula{{Name: "ensures#oneResponse", Formula: eq(sx("nResp", post.trace), sx("+", sx("nResp", pre.trace), "1"))}}
 				if full {
@@ -507,7 +517,7 @@ func (wf *WriteFamily) verifyPair(cr *CheckRun, job *EmittedJob, t *types.Named,
 					out = append(out, NamedFormula{Name: "ensures#core", Formula: eq(sx("respCore", post.trace), sx("core_wh", core, code))})
 				}
 				if body != "" {
-					out = append(out, NamedFormula{Name: "ensures#body", Formula: eq(sx("respBody", post.trace), body)})
+					out = append(out, NamedFormula{Name: "ensures#body", Formula: implies(bodyGuard, eq(sx("respBody", post.trace), body))})
 				}
 				return out
 			}
